@@ -24,11 +24,12 @@ def value_or_absent(o, i, m):
     return True
 
 CFG = dict(
-    streams=[('rw', 2500, 40000), ('e2e', 150, 2500)],
-    oracle_ops={'rwspec05', 'e2e'},
-    twophase_ops={'e2e'},
-    project={'e2e': lib.proj_e2e({'ja3', 'ja4', 'h2'})},
-    ops_filter={'rw', 'rwspec05', 'e2e'},
+    streams=[('rw', 2500, 40000), ('e2e', 150, 2500), ('e2emulti', 8, 150)],
+    oracle_ops={'rwspec05', 'e2e', 'e2emulti'},
+    twophase_ops={'e2e', 'e2emulti'},
+    project={'e2e': lib.proj_e2e({'ja3', 'ja4', 'h2'}), 'e2emulti': lib.multi(f1=lib.proj_e2e({'ja3', 'ja4', 'h2'}))},
+    ops_filter={'rw', 'rwspec05', 'e2e', 'e2emulti'},
+    race_streams={'e2emulti'},
     accept=value_or_absent,
     rule=("HTTPHandler.ServeHTTP in-process with a recording transport: default three injectors plus 0-2 custom ones (incl. a "
           "repeated name and odd spellings), each scripted to value / empty value / error, crossed with client header lines "
